@@ -35,6 +35,14 @@ NOT_YET = {}
 
 
 def register(PROPS, COMPONENTS):
+    # component-specific tables live in checks/reg_*.py (each defines register(PROPS, COMPONENTS))
+    import glob
+    import importlib
+    import os
+    here = os.path.dirname(os.path.abspath(__file__))
+    for f in sorted(glob.glob(os.path.join(here, "reg_*.py"))):
+        importlib.import_module(os.path.basename(f)[:-3]).register(PROPS, COMPONENTS)
+
     COMPONENTS["latch"] = dict(client="latch", driver="latch", directed_runs=6, quick_runs=400, thorough_runs=30000,
                                oracle=oracle_latch)
     PROPS["C10"] = dict(
